@@ -334,6 +334,10 @@ func boot(dsl string, dir int) (*booted, error) {
 var scratch = runner.Scratch()
 
 func (b *booted) serve(q reqSpec, raw string) (observation, error) {
+	return b.serveRaw(raw, reqRemotes[q.Remote])
+}
+
+func (b *booted) serveRaw(raw, remoteAddr string) (observation, error) {
 	if b.br == nil {
 		b.br = bufio.NewReaderSize(nil, 512)
 	}
@@ -342,7 +346,7 @@ func (b *booted) serve(q reqSpec, raw string) (observation, error) {
 	if err != nil {
 		return observation{}, fmt.Errorf("ReadRequest: %v", err)
 	}
-	req.RemoteAddr = reqRemotes[q.Remote]
+	req.RemoteAddr = remoteAddr
 	rec := httptest.NewRecorder()
 	b.a.Ingress.ServeHTTP(rec, req)
 	o := observation{Status: rec.Code}
@@ -786,6 +790,12 @@ func TestCheck(t *testing.T) {
 		return
 	}
 
+	// named matcher composition family (compose_test.go)
+	if !runCompose(r) {
+		r.Finish()
+		return
+	}
+
 	workers := runtime.NumCPU()
 	if workers > 16 {
 		workers = 16
@@ -945,6 +955,9 @@ func TestCheck(t *testing.T) {
 		"requests: path(10) x method(3) always complete; Host(8), header X(6), query q(4), RemoteAddr(5) complete whenever a matcher of the configuration observes the dimension "+
 		"(one-route configurations always get the full 28800-request product), else pinned. Each request is served by the real ingress handler; status, Allow set, and "+
 		"route/target of the stored message are compared with the reference resolver; 404/405 must leave the store empty. "+
+		"composition family: named matchers @S (1, 2, 3, 5 values), @X, @Y of one kind in {host, method, header_exists, query_exists, remote_ip}; every ordered tuple of 1..2 (thorough 1..3) "+
+		"routes /r0../r2 over the forms {@S@X, @S@Y, @X@S, @Y@S, @S, inline same kind + @S@X, inline other kind + @S@Y}; requests over every route path x every value of @S/@X/@Y/inline/non-member "+
+		"(presence sets for *_exists) x methods. "+
 		"distinct_nontrivial counts (match shape, observed request value, reference verdict) classes, (route path, request path, verdict) classes and "+
 		"(channel tuple, winner position, status) classes reached by the reference")
 	r.Assume("encoded slashes (%2F) and other percent-encoded path bytes are not in the alphabet (documentation does not define them)")
@@ -1129,6 +1142,9 @@ func replay(r *runner.Run, path string, m *memo) {
 	b, err := os.ReadFile(path)
 	if err != nil {
 		r.Infra("replay: %v", err)
+		return
+	}
+	if replayCompose(r, b) {
 		return
 	}
 	var doc struct {
